@@ -31,6 +31,7 @@ EXPLANATION = (
     ' Round 4: no matrix is widened by an identity factor on the left in the expectation path.'
     ' Round 5: every exit of get_expectation_value is the quadratic form with the sparse matrix; term hashes are not finer than term equality (C03-D6); no unsound functools cache.'
     " Round 6: the expansion's coefficients are handed on as computed by the normalised trace (no projection to the real part, rounding or clipping) (D5)."
+    ' Round 7: no exit of is_hermitian answers with a literal (D2).'
 )
 RULE_TEXT = "instances = branches of the five anchored functions, table entries of the phase/flip/letter tables, padding linear forms, guard dominance sites; distinct by (rule, construct)"
 ASSUMPTIONS = [
